@@ -1,6 +1,7 @@
 package main
 
 import (
+	"os"
 	"fmt"
 	"go/token"
 	"go/types"
@@ -70,6 +71,7 @@ type FnCtx struct {
 	errGlobals []string
 	unrollTop  bool
 	usesPtrTag bool
+	wfDone     map[string]bool
 	next0      *Term
 	epochs     int
 	ghostSorts map[string]Sort
@@ -83,6 +85,10 @@ func (fc *FnCtx) ghostInit(name string, sort Sort) *Term {
 	}
 	g := fc.sc.Fresh("g0_"+name, sort)
 	fc.initGhosts[name] = g
+	if (name == "held" || name == "rheld") && fc.next0 != nil {
+		// a lock inside an object this function allocates cannot be held on entry
+		fc.sc.Assert(mk(SBool, fmt.Sprintf("(forall ((p!q Ptr)) (! (=> (select %s p!q) (< (pobj p!q) %s)) :pattern ((select %s p!q))))", g.S, fc.next0.S, g.S)))
+	}
 	return g
 }
 
@@ -134,10 +140,56 @@ func (fc *FnCtx) heap(st *State, name string, sort Sort) *Term {
 
 // wfHeapFact: every reference stored anywhere in heap h denotes an object allocated before `bound`
 // (heap well-formedness, stated once per unconstrained heap / row so that it is available under quantifiers).
+// freshRegion: a callee may have allocated objects (ids in [pre, nn)) and initialised them. For the heaps that
+// carry heap-wide reference facts (Ptr, Slice and map value heaps) the rows of that region are new: a new heap
+// version agrees with the old one below `pre`; its rows hold references below nn.
+func (fc *FnCtx) freshRegion(st *State, pre, nn *Term) {
+	frame := func(nh, old *Term) {
+		fc.sc.Assert(mk(SBool, fmt.Sprintf("(forall ((o!q Int)) (! (=> (< o!q %s) (= (select %s o!q) (select %s o!q))) :pattern ((select %s o!q))))", pre.S, nh.S, old.S, nh.S)))
+	}
+	for _, s := range []Sort{SPtr, SSlice} {
+		old := fc.leafHeap(st, s)
+		nh := fc.sc.Fresh("hfr", HeapSort(s))
+		frame(nh, old)
+		fc.wfHeapFact(nh, nn)
+		st.heaps[leafHeapName(s)] = nh
+	}
+	var names []string
+	for name := range fc.heapSorts {
+		if strings.HasPrefix(name, "MV") {
+			names = append(names, name)
+		}
+	}
+	sort.Strings(names)
+	for _, name := range names {
+		srt := fc.heapSorts[name]
+		_, inner := splitArr(srt)
+		if !strings.HasPrefix(string(inner), "(Array ") {
+			continue
+		}
+		_, leaf := splitArr(inner)
+		if leaf != SPtr && leaf != SSlice {
+			continue
+		}
+		old := fc.heap(st, name, srt)
+		nh := fc.sc.Fresh("hfr", srt)
+		frame(nh, old)
+		fc.wfHeapFact(nh, nn)
+		st.heaps[name] = nh
+	}
+}
+
 func (fc *FnCtx) wfHeapFact(h *Term, bound *Term) {
 	if bound == nil {
 		return
 	}
+	if fc.wfDone == nil {
+		fc.wfDone = map[string]bool{}
+	}
+	if fc.wfDone[h.S+"|"+bound.S] {
+		return
+	}
+	fc.wfDone[h.S+"|"+bound.S] = true
 	k1, inner := splitArr(h.Sort)
 	var k2, leaf Sort
 	two := strings.HasPrefix(string(inner), "(Array ")
@@ -165,7 +217,13 @@ func (fc *FnCtx) wfHeapFact(h *Term, bound *Term) {
 	if two {
 		vars += fmt.Sprintf(" (b!q %s)", k2)
 	}
-	fc.sc.Assert(mk(SBool, fmt.Sprintf("(forall (%s) (! (and (<= 0 %s) (< %s %s)) :pattern (%s)))", vars, obj, obj, bound.S, read)))
+	// only rows of allocated objects are constrained: the rows of objects a callee allocates later (ids >= bound)
+	// are described by the callee's postconditions
+	guard := "true"
+	if two && k1 == SInt && os.Getenv("VERIF_WFGUARD") != "" {
+		guard = fmt.Sprintf("(< a!q %s)", bound.S)
+	}
+	fc.sc.Assert(mk(SBool, fmt.Sprintf("(forall (%s) (! (=> %s (and (<= 0 %s) (< %s %s))) :pattern (%s)))", vars, guard, obj, obj, bound.S, read)))
 }
 
 func (fc *FnCtx) setHeap(st *State, name string, t *Term) {
